@@ -242,6 +242,21 @@ def gen(rng, tier):
         if i % 4 == 3:
             f = mutate(rng, f)
         cases.append(req_case(f))
+    # Cookie fields among other header fields, in particular behind / between the fields read_http_request consumes first
+    # (content-type, expect, transfer-encoding): the order in which the Cookie fields are walked must stay the order sent
+    others = [("content-type", "text/plain"), ("Expect", "100-continue"), ("transfer-encoding", "gzip"), ("host", "h"),
+              ("accept", "*/*"), ("Content-Type", "a/b")]
+    for i in range(20000 if thorough else 1500):
+        f = gen_valid_fields(rng)
+        ck = [x for x in f if x[0].lower() == "cookie"]
+        if len(ck) < 2 and i % 2 == 0:
+            # two Cookie fields with the same cookie name and different values: the later one wins
+            nm = "sid"
+            ck = [("Cookie", [("p", "", nm, "old%d" % i, "")]), ("cookie", [("p", "", nm, "new%d" % i, ""), ("p", " ", "t", "1", "")])]
+        mixed = list(ck)
+        for (h, v) in rng.sample(others[:3], rng.randint(1, 3)) + rng.sample(others[3:], rng.randint(0, 2)):
+            mixed.insert(rng.choice([0, 0, rng.randint(0, len(mixed))]), (h, [("n", "", v, "")]))
+        cases.append(req_case(mixed))
     n_sc = 500000 if thorough else 8000
     for i in range(n_sc):
         k = rng.choice([1, 1, 1, 2, 3, 0]) if i % 50 else 0
